@@ -24,6 +24,86 @@ ASSUMPTIONS = ["pyfaidx / pyBigWig return the bases / values of the requested ha
 IO = "io"
 
 
+def _conjuncts(t):
+    if isinstance(t, ast.BoolOp) and isinstance(t.op, ast.And):
+        r = []
+        for v in t.values:
+            r += _conjuncts(v)
+        return r
+    return [t]
+
+
+def count_filter_rule(fi, loop, role):
+    """min_counts / max_counts: `continue` exactly when the threshold is given (is not None - 0 is a legal threshold) and the
+    target signal sum is strictly below / above it; n_loci: `break` when given and reached."""
+    from ..rules import inline_locals
+    pm = parent_map(fi.node)
+    out = []
+    found = {}
+    for n in walk_no_nested(loop):
+        if not isinstance(n, ast.If):
+            continue
+        for p in ("min_counts", "max_counts", "n_loci"):
+            if any(isinstance(x, ast.Name) and x.id == p for x in ast.walk(n.test)):
+                found.setdefault(p, []).append(n)
+    for p, want_op, exitk in (("min_counts", "<", ast.Continue), ("max_counts", ">", ast.Continue), ("n_loci", "==", ast.Break)):
+        r = role + " [%s]" % p
+        ifs = found.get(p, [])
+        if len(ifs) != 1:
+            out.append(unrecognised("FILTER", fi, r, "%d tests mention %s" % (len(ifs), p)))
+            continue
+        n = ifs[0]
+        if n.orelse or not any(isinstance(b, exitk) for b in n.body):
+            out.append(violation("FILTER", fi, r, "`if %s` does not %s" % (unparse(n.test), exitk.__name__.lower()), n))
+            continue
+        conj = _conjuncts(n.test)
+        # enclosing `if p is not None:` also counts as the nullness conjunct
+        q = pm.get(n)
+        while q is not None and q is not loop:
+            if isinstance(q, ast.If) and any(n is x for b in q.body for x in ast.walk(b)):
+                conj = _conjuncts(q.test) + conj
+            q = pm.get(q)
+        nul = [c for c in conj if unparse(c) in ("%s is not None" % p, "not %s is None" % p, "not (%s is None)" % p)]
+        truthy = [c for c in conj if isinstance(c, ast.Name) and c.id == p]
+        cmps = [c for c in conj if isinstance(c, ast.Compare) and len(c.ops) == 1 and c not in nul and
+                any(isinstance(x, ast.Name) and x.id == p for x in ast.walk(c))]
+        rest = [c for c in conj if c not in nul and c not in truthy and c not in cmps and
+                unparse(c) not in ("signals is not None",)]
+        if truthy:
+            out.append(violation("FILTER", fi, r, "the filter is guarded by the truth value of `%s` (`%s`): a threshold of 0 is a legal value and "
+                                 "silently disables the filter; the documented switch is `%s is not None`" % (p, unparse(n.test), p), n))
+            continue
+        if rest or len(cmps) != 1 or not nul:
+            out.append(unrecognised("FILTER", fi, r, "test `%s` (nullness=%d, comparisons=%d, other=%s)" % (unparse(n.test), len(nul), len(cmps), [unparse(x) for x in rest]), n))
+            continue
+        c = cmps[0]
+        l, op, rgt = c.left, c.ops[0], c.comparators[0]
+        ops = {ast.Lt: "<", ast.LtE: "<=", ast.Gt: ">", ast.GtE: ">=", ast.Eq: "==", ast.NotEq: "!="}
+        flip = {"<": ">", "<=": ">=", ">": "<", ">=": "<=", "==": "==", "!=": "!="}
+        o = ops.get(type(op))
+        if isinstance(l, ast.Name) and l.id == p:
+            l, rgt, o = rgt, l, flip.get(o)
+        if not (isinstance(rgt, ast.Name) and rgt.id == p) or o is None:
+            out.append(unrecognised("FILTER", fi, r, "comparison `%s`" % unparse(c), n))
+            continue
+        val = unparse(inline_locals(fi, l))
+        want_val = "len(seqs)" if p == "n_loci" else "signal[target_idx].sum()"
+        alt_vals = ("len(seqs)", "len(seqs_)") if p == "n_loci" else ("signal[target_idx].sum()", "signal[target_idx, :].sum()", "torch.sum(signal[target_idx])", "signal[target_idx].sum(dim=-1)")
+        if p == "n_loci" and o == ">=":
+            o = "=="                                    # len(seqs) grows by one per iteration: >= and == stop at the same locus
+        if o != want_op:
+            what = {"<=": "a locus whose signal equals the bound is dropped", ">=": "a locus whose signal equals the bound is dropped"}.get(o, "count filter is inverted / wrong relation")
+            out.append(violation("FILTER", fi, r, "%s: `%s`, expected `%s %s %s`" % (what, unparse(c), want_val, want_op, p), n))
+        elif val not in alt_vals:
+            if p != "n_loci" and "target_idx" not in val and "signal" in val:
+                out.append(violation("FILTER", fi, r, "the filtered quantity is `%s`, not the sum of the target track `signal[target_idx]`" % val, n))
+            else:
+                out.append(unrecognised("FILTER", fi, r, "filtered quantity `%s`" % val, n))
+        else:
+            out.append(holds("FILTER", fi, r, "if %s is not None and %s %s %s: %s" % (p, val, want_op, p, exitk.__name__.lower()), n))
+    return out
+
+
 def run(repo, tier):
     out = []
     out += meme_rules(repo)
@@ -284,20 +364,7 @@ def loci_rules(repo):
             out.append(unrecognised("EDGE", fi, role, t, ef[0]))
     # --- count filters and n_loci cap
     role = "a locus is dropped by the count filters only when its target signal is below min_counts / above max_counts; loading stops at n_loci"
-    tests = {unparse(n.test): n for n in walk_no_nested(loop) if isinstance(n, ast.If)}
-    want = ["min_counts is not None and signal[target_idx].sum() < min_counts", "max_counts is not None and signal[target_idx].sum() > max_counts",
-            "n_loci is not None and len(seqs) == n_loci"]
-    if all(w in tests for w in want):
-        okb = any(isinstance(b, ast.Break) for b in tests[want[2]].body) and all(any(isinstance(b, ast.Continue) for b in tests[w].body) for w in want[:2])
-        out.append((holds if okb else violation)("FILTER", fi, role, "; ".join(want), tests[want[0]], nontrivial=False))
-    else:
-        near = [t for t in tests if "min_counts" in t or "max_counts" in t or "n_loci" in t]
-        if any("<= min_counts" in t or ">= max_counts" in t for t in near):
-            out.append(violation("FILTER", fi, role, "a locus whose signal equals the bound is dropped: %s" % near, tests[near[0]]))
-        elif any("> min_counts" in t or "< max_counts" in t for t in near):
-            out.append(violation("FILTER", fi, role, "count filter is inverted: %s" % near, tests[near[0]]))
-        else:
-            out.append(unrecognised("FILTER", fi, role, str(near)))
+    out += count_filter_rule(fi, loop, role)
     # --- midpoint
     role = "the midpoint is start + (end - start)//2 of the locus"
     md = [s for s in loop.body if isinstance(s, ast.Assign) and unparse(s.targets[0]) == "mid"]
